@@ -17,7 +17,7 @@ RULE = ('case = (key shape: primary algorithm, subkey, protection state) x histo
         '(fresh and held-from-earlier) is compared with the public projection; non-trivial = the history contains at least one operation after the held '
         'twin was derived; distinct = distinct (shape, history) descriptors')
 ASSUMPTIONS = ['vf.ref packet splitter and key-grammar parser', 'secret integers shorter than 8 octets are not scanned for']
-MIN_COUNTERS = {'quick': {'states_checked': 200, 'fresh_twin_matches': 200, 'private_ops_refused': 300, 'secret_scans': 400},
+MIN_COUNTERS = {'quick': {'states_checked': 150, 'fresh_twin_matches': 150, 'private_ops_refused': 300, 'secret_scans': 300},
                 'thorough': {'states_checked': 3000}}
 BUDGET = {'quick': (240, 800), 'thorough': (1800, 3600)}
 TECHNIQUE = 'runtime monitoring: history monitor; exports compared with the public projection computed by an independent parser; secret-octet scan; refusal matrix'
